@@ -451,4 +451,59 @@ def c17(res, scenario) -> list[Violation]:
     return out
 
 
-ALL = {"C01": c01, "C02": c02, "C03": c03, "C04": c04, "C09": c09, "C17": c17}
+def c08(res, scenario) -> list[Violation]:
+    """Runs until told to stop; the uptime limit is in system time."""
+    out: list[Violation] = []
+    case = case_of(res, scenario)
+    ev, tm = res.events, res.times
+    # (a)/(b) launch ends only for a cause; framework bookkeeping never kills a thread
+    for th, kind, obj, val in ev:
+        if kind == "exit" and th in BG and val not in (None, "InjectedFault"):
+            out.append(Violation(f"c08:framework-exception:{val}",
+                                 f"the {th} thread died of {val}, raised by framework bookkeeping "
+                                 f"(no user callback raised)", case))
+    if res.outcome.startswith("raised") and "InjectedFault" not in res.outcome and \
+            "KeyboardInterrupt" not in res.outcome:
+        out.append(Violation(f"c08:launch-raised:{res.outcome.split(':')[1]}",
+                             f"launch() raised {res.outcome} without any user fault", case))
+    if res.outcome.startswith("aborted") or not tm:
+        return out
+    cause = any(e[1] == "cmd_exec" and e[2] == "SHUTDOWN" for e in ev) or \
+        any(e[1] in ("uptime_reached", "interrupt", "cb_raise", "savecond_raise") for e in ev) or \
+        any(e[1] == "exit" and e[3] is not None for e in ev)
+    if any(e[0] == "control" and e[1] == "shutdown_call" for e in ev) and not cause:
+        out.append(Violation("c08:stopped-without-cause", "shutdown() was called without a SHUTDOWN "
+                             "command, uptime limit, interrupt or fault", case))
+    # (c) uptime window
+    U = scenario.get("max_uptime", "inf")
+    if scenario.get("timed") and U not in ("inf", None):
+        sc = scenario.get("time_scale", 1.0)
+        i_start = next((i for i, e in enumerate(ev) if e[0] == "control" and e[1] == "spawn" and e[2] == "webapi"), None)
+        i_up = next((i for i, e in enumerate(ev) if e[1] == "uptime_reached"), None)
+        other_stop = next((i for i, e in enumerate(ev) if e[0] == "control" and e[1] == "shutdown_call"), None)
+        if i_start is not None:
+            def unpaused(i_end: int) -> float:
+                tot, p0 = 0.0, None
+                for j in range(i_start, i_end + 1):
+                    if ev[j][1] == "clock_pause" and p0 is None:
+                        p0 = tm[j]
+                    elif ev[j][1] == "clock_resume" and p0 is not None:
+                        tot += tm[j] - p0
+                        p0 = None
+                if p0 is not None:
+                    tot += tm[i_end] - p0
+                return (tm[i_end] - tm[i_start]) - tot
+            durs = scenario.get("durations", {})
+            delta = scenario.get("loop_quantum", 0.25) + durs.get("step", 0.0) + durs.get("train", 0.0) + 2.0
+            if i_up is not None and (other_stop is None or other_stop > i_up):
+                e = unpaused(i_up)
+                if not (U / sc - 1e-6 < e <= U / sc + delta + 1e-6):
+                    out.append(Violation(
+                        "c08:uptime-window", f"uptime limit {U} at scale {sc}: reached after {e:.3f}s of "
+                        f"un-paused real time, expected in ({U / sc:.3f}, {U / sc + delta:.3f}]", case))
+            elif i_up is None and other_stop is None:
+                out.append(Violation("c08:uptime-never", "finite uptime limit never reached", case))
+    return out
+
+
+ALL = {"C08": c08, "C01": c01, "C02": c02, "C03": c03, "C04": c04, "C09": c09, "C17": c17}
